@@ -1,15 +1,20 @@
 // Package c10: each interactive command or web request sees the pristine profile.
 //
 // (a) interactive histories: every sequence of <= k lines over an alphabet of
-//     commands-with-arguments and option assignments, followed by a probe set of
-//     report commands, on several profiles; differential oracle: the probe
-//     outputs equal those of a fresh session that received only the option
-//     assignments (cached per reached option state, which also asserts that the
-//     option state determines the outputs).
+//
+//	commands-with-arguments and option assignments, followed by a probe set of
+//	report commands, on several profiles; differential oracle: the probe
+//	outputs equal those of a fresh session that received only the option
+//	assignments (cached per reached option state, which also asserts that the
+//	option state determines the outputs).
+//
 // (b) web request sequences of <= k requests followed by probe requests, against
-//     a fresh web UI.
+//
+//	a fresh web UI.
+//
 // (c) concurrent mixes of 2-3 web requests under the controlled scheduler
-//     (preemption bound): every response equals its solo response.
+//
+//	(preemption bound): every response equals its solo response.
 //
 // Runs in the instrumented build under the canonical map order, so that a
 // C08-type nondeterminism cannot show up as a leak.
